@@ -97,4 +97,48 @@ theorem C14_result_any {m : Machine} {t : Trigger} {act : CbId → Act} (B : Beh
                          ((applicable t.event tr.on).map fun cb => rtcRet m (act cb))))) := by
   rw [activate_any hs h]; exact C14_result B tr hv hg hp ha c
 
+/-! ## The caller gets the *first* result, whatever is queued behind
+
+`first_result` in `processing_loop`: once an event that is not the activation pseudo-event has produced its result
+(also `None`: an event that fired nothing, or whose callbacks returned nothing), no event processed later in the same
+drain — nested sends, chained events — can replace it. -/
+
+/-- once the first result is set, the drain loop can only return it -/
+theorem drainLoop_keeps_first (m : Machine) (n : Nat) (f : Res) (c : Cfg) (r : Res)
+    (h : (drainLoop m n (some f) c).2 = .ok r) : r = f := by
+  induction n generalizing c with
+  | zero =>
+    unfold drainLoop at h
+    split at h
+    · simp at h; exact h.symm
+    · simp at h
+  | succ k ih =>
+    unfold drainLoop at h
+    split at h
+    · simp at h; exact h.symm
+    · rename_i t q hq
+      split at h
+      · rename_i c' r' heq
+        exact ih c' (by simpa [orFirst] using h)
+      · simp at h
+
+/-- **C14 / C03 (the outermost call returns the first event's result).** If the event at the head of the queue
+executes with result `r₀` — `None` included — then, however many events its callbacks queued and whatever those
+return, a drain that completes returns `r₀`. -/
+theorem C14_first_result (m : Machine) (n : Nat) (c : Cfg) (t : Trigger) (q : List Trigger) (c' : Cfg) (r₀ r : Res)
+    (hq : c.queue = t :: q)
+    (ht : trigger nestedRtc m t { c with queue := q } = (c', .ok (some r₀)))
+    (h : (drainLoop m (n + 1) none c).2 = .ok r) : r = r₀ := by
+  unfold drainLoop at h
+  simp only [hq, ht, orFirst] at h
+  exact drainLoop_keeps_first m n r₀ c' r h
+
+/-- the activation pseudo-event (`trigger` returns the sentinel `none`) does not count: the next event's result does -/
+theorem C14_initial_not_a_result (m : Machine) (n : Nat) (c : Cfg) (t : Trigger) (q : List Trigger) (c' : Cfg)
+    (hq : c.queue = t :: q)
+    (ht : trigger nestedRtc m t { c with queue := q } = (c', .ok none)) :
+    drainLoop m (n + 1) none c = drainLoop m n none c' := by
+  conv => lhs; unfold drainLoop
+  simp only [hq, ht, orFirst]
+
 end SMV
